@@ -54,6 +54,14 @@ if __name__ == '__main__':
     names = a.names or sorted(n for n in os.listdir(B) if os.path.exists(os.path.join(B, n, 'patch.diff')))
     for n in names:
         res = run_one(n, checks, a.jobs)
-        json.dump(res, open(os.path.join(B, n, 'result.json'), 'w'), indent=1)
+        rp = os.path.join(B, n, 'result.json')
+        if a.checks and os.path.exists(rp) and 'checks' in res:
+            # partial run: merge into the previous result, remembering which head each verdict is from
+            old = json.load(open(rp))
+            merged = {k: dict(v, head=v.get('head', old.get('head'))) for k, v in old.get('checks', {}).items()}
+            merged.update({k: dict(v, head=res['head']) for k, v in res['checks'].items()})
+            res = dict(head=res['head'], checks=dict(sorted(merged.items())),
+                       all_pass=all(v['rc'] == 0 for v in merged.values()))
+        json.dump(res, open(rp, 'w'), indent=1)
         bad = {k: (v['rc'], v['fingerprints'][:2]) for k, v in res.get('checks', {}).items() if v['rc'] != 0}
         print(n, 'ALL PASS' if res.get('all_pass') else f'PROBLEMS: {bad or res.get("error")}', flush=True)
